@@ -235,14 +235,16 @@ def check(ck):
         ck.require(t == ("attr", ("attr", ("param", "self"), "_done_event"), "data") and bool(waits), "C09.3", "%s: `%s`" % (q.fn(fres), q.stmt_text(rn)),
                    "returns the stored data after a true wait", "result() returns %s%s" % (prov.show(t), "" if waits else " without a successful wait"), q.loc(fres, rn))
     ed = prog.cls(TP, "EventData")
-    for meth, param, field in (("set", "data", "__data"), ("raise_exception", "exception", "__exception")):
+    from rules import common as _cm
+    EF = _cm.event_fields(prog)
+    for meth, param, field in (("set", "data", EF["data"]), ("raise_exception", "exception", EF["exception"])):
         fi = prog.func(TP, "EventData." + meth)
         gg = cfg_of(fi)
         st_ = [n for n in gg.live_nodes() if n.kind == "stmt" and isinstance(n.ast, ast.Assign) and dump(n.ast.targets[0]) == "self." + field]
-        okk = len(st_) == 1 and prov.origin(gg, st_[0], st_[0].ast.value) == ("param", param)
+        okk = len(st_) == 1 and prov.origin(gg, st_[0], st_[0].ast.value) == ("param", fi.params[1])
         ck.require(okk, "C09.3", "%s: self.%s = %s" % (q.fn(fi), field, param), "stores the very object",
                    "EventData.%s does not store its argument itself in %s" % (meth, field), q.loc(fi, fi.node))
-    for meth, field in (("data", "__data"), ("exception", "__exception")):
+    for meth, field in (("data", EF["data"]), ("exception", EF["exception"])):
         fi = prog.func(TP, "EventData." + meth)
         gg = cfg_of(fi)
         for rn in [n for n in gg.live_nodes() if n.kind == "return"]:
@@ -252,8 +254,8 @@ def check(ck):
     fw = prog.func(TP, "EventData.wait")
     gw = cfg_of(fw)
     rz = [n for n in gw.live_nodes() if n.kind == "raise"]
-    okk = len(rz) == 1 and dump(rz[0].ast.exc) == "self.__exception"
-    ck.require(okk, "C09.3", "%s: raises the stored exception object" % q.fn(fw), "`raise self.__exception`",
+    okk = len(rz) == 1 and dump(rz[0].ast.exc) == "self." + EF["exception"]
+    ck.require(okk, "C09.3", "%s: raises the stored exception object" % q.fn(fw), "`raise self.%s`" % EF["exception"],
                "EventData.wait does not raise the stored exception object itself", q.loc(fw, fw.node))
     for cname, meths in (("EventData", ("wait", "data", "exception", "is_set")), ("FutureResult", ("result", "done"))):
         cobj = prog.cls(TP, cname)
